@@ -212,6 +212,14 @@ def gen_write_cases(meta, rng, tier):
         objs = [g.obj('CanMessage'), big, g.obj('CanMessage')]
         lv = rng.randrange(0, 10)
         cases.append({'line': 'FW %d %d 1' % (lv, cs) + ''.join(' | ' + o for o in objs), 'level': lv, 'cs': cs, 'restore': 1, 'hdr': {}, 'objs': objs, 'kind': 'FW'})
+    # bulk: containers of 32 KiB and more holding bytes that do not compress (deflate falls back to stored
+    # blocks, the output is longer than the input), at the levels that compress
+    for lv, cs in ((1, 0x8000), (6, 0x10000), (9, 0x20000)) if tier == 'quick' else [(l, c) for l in (1, 3, 6, 9) for c in (0x8000, 0x10000, 0x20000)]:
+        big = g.obj('AppText')
+        tf = [f for f, kd, nm, _ in g.view('AppText').fields if nm == 'text'][0]
+        big = ' '.join(t for t in big.split() if not t.startswith('%d=' % tf)) + ' %d=x%s' % (tf, bytes(rng.getrandbits(8) for _ in range(rng.randrange(36000, 42000))).hex())
+        objs = [g.obj('CanMessage'), big, g.obj('CanMessage')]
+        cases.append({'line': 'FW %d %d 0' % (lv, cs) + ''.join(' | ' + o for o in objs), 'level': lv, 'cs': cs, 'restore': 0, 'hdr': {}, 'objs': objs, 'kind': 'FW'})
     return cases
 
 
